@@ -22,7 +22,7 @@
         // Encode the chain as:
         // 2l (doubling l times)
         // ±k (X -> 2X ± kP where k is odd)
-        let mut c = [0_i8; 32];
+        let mut c = [0_i8; 34];
         let l = Self::make_addition_chain(&mut c, k);
         // Get initial element (chain[l-1] = 1 or 3 or 5 or 7)
         let mut q = gaps[c[l - 1] as usize / 2].to_proj();
@@ -76,14 +76,14 @@
         // Encode the chain as:
         // 2l (doubling l times)
         // ±k (X -> 2X ± kP where k is odd)
-        let mut c = [0_i8; 32];
+        let mut c = [0_i8; 34];
         let l = Self::make_addition_chain(&mut c, k);
         // Get initial element (chain[l-1] = 1 or 3 or 5 or 7)
         let mut q = gaps[c[l - 1] as usize / 2].to_proj();
         let ghost mut cur: int = c@[l - 1] as int;
         for idx in 1..l
             invariant
-                1 <= l <= 32, k != 0,
+                1 <= l <= 33, k != 0,
                 forall|i: int| 0 <= i < 4 ==> eelem(self, #[trigger] gaps@[i]) == gmul(2 * i + 1, g),
                 forall|i: int| 0 <= i < l - 1 ==> (#[trigger] c@[i] % 2 == 0 ==> 2 <= c@[i] <= 126)
                     && (c@[i] % 2 != 0 ==> -7 <= c@[i] <= 7),
